@@ -487,7 +487,7 @@ func init() {
 	fw.Register(&fw.Property{
 		ID:     "C04",
 		Run:    runC04,
-		Rule:   "(a) every special-form head (15) x operand count 0..4 x 29 operand shapes (exhaustive to 2 operands in quick / 3 in thorough, sampled beyond); (b) functions and macros built from 21 malformed parameter lists and called with 0..3 arguments; (c) every function found in the loaded environment (minus interactive/printing helpers) x argument tuples of length 0..3 over 22 value kinds incl. atoms, futures, closures, macros, builtins, Go errors (sampled in quick, all in thorough); (d) ASTs READ cannot produce (nil slices/maps, empty symbol, non-symbol heads, closures/atoms/errors/floats spliced into head and operand positions) alone and as operands of every head; (e) seeded compositions nesting all of these; every AST is evaluated directly, as (try AST (catch e :caught)), under an already cancelled context and (a subset) as @(future AST); a Go panic reaching the harness's recover() or killing the worker process is a violation, so is an error that try/catch cannot handle; distinct = distinct (head/builtin, arity) classes",
+		Rule:   "(a) every special-form head (15) x operand count 0..4 x 29 operand shapes (exhaustive to 2 operands in quick / 3 in thorough, sampled beyond); (b) functions and macros built from 21 malformed parameter lists and called with 0..3 arguments; (c) every function found in the loaded environment (minus interactive/printing helpers) x argument tuples of length 0..3 over 22 value kinds incl. atoms, futures, closures, macros, builtins, Go errors (sampled in quick, all in thorough); (d) ASTs READ cannot produce (nil slices/maps, empty symbol, non-symbol heads, closures/atoms/errors/floats spliced into head and operand positions) alone and as operands of every head; (e) seeded compositions nesting all of these; every AST is evaluated directly, as (try AST (catch e :caught)), under an already cancelled context and (a subset) as @(future AST); a Go panic reaching the harness's recover() or killing the worker process is a violation, so is an error that try/catch cannot handle; distinct = distinct (head/builtin, arity) classes; (g) function values of 26 provenances (plain, with-meta, ^meta, eval-built, from atoms/maps/lists, builtins with metadata) x 51 ways of applying them (direct with 0..3 arguments, apply, map, swap!, reduce, filter, sort-by, defmacro + call / macroexpand / map, future-call, memoize, partial, comp, ->, ->>, update, update-in, group-by, some, every?, with-meta, self-application)",
 		Assume: []string{"recursion depth is bounded by construction (host-stack exhaustion is excluded by the quantifier)", "hand-forged zero-valued MalFunc/Func structs and foreign EnvType implementations are not generated"},
 		Finish: func(m *fw.Merged) {
 			m.Floor("asts", 10000)
